@@ -179,7 +179,21 @@ class _CanonLoops(ast.NodeTransformer):
        acc.extend(E for T in IT if C)        ->  for T in IT: if C: acc.append(E)
     and inside a loop ``if C: continue`` followed by the rest of the body is read as ``if not C: <rest>``"""
 
+    def __init__(self, only_sums=False):
+        # a first pass before single-use locals are inlined: a sum over a generator bound to a name of its own stays a loop of its own
+        self.only_sums = only_sums
+
     def _stmts(self, stmts, in_loop):
+        if self.only_sums:
+            out = []
+            for st in stmts:
+                if isinstance(st, ast.Assign) and len(st.targets) == 1 and isinstance(st.targets[0], ast.Name) and isinstance(st.value, ast.Call) \
+                        and isinstance(st.value.func, ast.Name) and st.value.func.id == 'sum' and len(st.value.args) == 1 and not st.value.keywords \
+                        and isinstance(st.value.args[0], ast.GeneratorExp) and _gen1(st.value.args[0]):
+                    out.extend(self._one(st))
+                else:
+                    out.append(st)
+            return out
         out = []
         for i, st in enumerate(stmts):
             if in_loop and isinstance(st, ast.If) and not st.orelse and len(st.body) == 1 and isinstance(st.body[0], ast.Continue) \
@@ -207,12 +221,25 @@ class _CanonLoops(ast.NodeTransformer):
                 loop = ast.For(target=t, iter=it, body=[ast.If(test=_and(conds + [elt]), body=body, orelse=[])], orelse=[], type_comment=None)
                 return [ast.copy_location(ast.Assign(targets=[ast.Name(id=name, ctx=ast.Store())], value=ast.Constant(False)), st),
                         ast.copy_location(loop, st)]
-            if st.value.func.id == 'sum' and isinstance(elt, ast.Constant) and elt.value == 1 and isinstance(st.value.args[0], ast.GeneratorExp):
-                inc = ast.AugAssign(target=ast.Name(id=name, ctx=ast.Store()), op=ast.Add(), value=ast.Constant(1))
+            if st.value.func.id == 'sum' and isinstance(st.value.args[0], ast.GeneratorExp):
+                inc = ast.AugAssign(target=ast.Name(id=name, ctx=ast.Store()), op=ast.Add(), value=elt)
                 body = [ast.If(test=_and(conds), body=[inc], orelse=[])] if conds else [inc]
                 loop = ast.For(target=t, iter=it, body=body, orelse=[], type_comment=None)
                 return [ast.copy_location(ast.Assign(targets=[ast.Name(id=name, ctx=ast.Store())], value=ast.Constant(0)), st),
                         ast.copy_location(loop, st)]
+        # for I, X in enumerate(IT, START): BODY   ->   I = START; for X in IT: BODY; I += 1      (BODY without continue / rebinding of I)
+        if isinstance(st, ast.For) and not st.orelse and isinstance(st.iter, ast.Call) and isinstance(st.iter.func, ast.Name) and st.iter.func.id == 'enumerate' \
+                and (len(st.iter.args) == 2 or any(k.arg == 'start' for k in st.iter.keywords)) and isinstance(st.target, ast.Tuple) and len(st.target.elts) == 2 \
+                and isinstance(st.target.elts[0], ast.Name):
+            start = st.iter.args[1] if len(st.iter.args) == 2 else next(k.value for k in st.iter.keywords if k.arg == 'start')
+            cnt = st.target.elts[0].id
+            clean = not any(isinstance(x, ast.Continue) for b in st.body for x in ast.walk(b)) and \
+                not any(isinstance(x, ast.Name) and x.id == cnt and isinstance(x.ctx, ast.Store) for b in st.body for x in ast.walk(b))
+            if clean:
+                init = ast.copy_location(ast.Assign(targets=[ast.Name(id=cnt, ctx=ast.Store())], value=start), st)
+                step = ast.copy_location(ast.AugAssign(target=ast.Name(id=cnt, ctx=ast.Store()), op=ast.Add(), value=ast.Constant(1)), st)
+                loop = ast.copy_location(ast.For(target=st.target.elts[1], iter=st.iter.args[0], body=list(st.body) + [step], orelse=[], type_comment=None), st)
+                return [init, loop]
         # L = [E for T in IT if C]   ->   L = []; for T in IT: if C: L.append(E)
         if isinstance(st, ast.Assign) and len(st.targets) == 1 and isinstance(st.targets[0], ast.Name) and isinstance(st.value, ast.ListComp) \
                 and _gen1(st.value) and _LISTCOMP_TO_LOOP:
@@ -433,7 +460,7 @@ class Program:
             from .inline import inline_unknown_helpers
             tree, self.inlined_helpers[name] = inline_unknown_helpers(name, tree)
             tree = ast.fix_missing_locations(_CanonRet().visit(_CanonAug().visit(_CanonAnn().visit(tree))))
-            tree = ast.fix_missing_locations(_CanonAug().visit(_CanonLoops().visit(_CanonInline().visit(_CanonTernary().visit(tree)))))
+            tree = ast.fix_missing_locations(_CanonAug().visit(_CanonLoops().visit(_CanonInline().visit(_CanonLoops(only_sums=True).visit(_CanonTernary().visit(tree))))))
         except (OSError, SyntaxError) as e:
             raise AnalysisError(f'cannot parse {path}: {e}') from e
         mi = ModuleInfo(
